@@ -4,11 +4,11 @@
 
     fromSuitesTable   for `parallelized` ∈ {False, True} and a suite whose tests have the given (start, end) times
                       (`none` = the attribute is None: a result still in progress has no end time): does the call
-                      return (and with how many tests counted) or raise `TypeError` / `IndexError`.
+                      return (with how many tests counted, and is `stats.duration` known) or raise.
 
-  The duration guard of `from_suites` is a finite decision: if the code's decision changes (e.g. the repair
-  `fixes/D34-from-suites-unfinished-duration.diff` is applied, or results without end time are dropped from the
-  count), `decide` fails here.
+  The duration guard of `from_suites` is a finite decision: if the code's decision changes (the repair D34
+  `fixes/D34-from-suites-unfinished-duration.diff` is undone: `TypeError` / `IndexError` rows; or results without end
+  time are dropped from the count), `decide` fails here.
 -/
 import LccModel.Model.FilteredViews
 import LccModel.Generated.C20Tables
@@ -24,18 +24,19 @@ def testsOf : Nat → List (Option Nat × Option Nat) → List TestResult
     { md := mdOf i, result := { steps := [], startTime := s, endTime := e,
                                 status := if e.isSome then some .passed else none, statusDetails := none } } :: testsOf (i + 1) rest
 
-/-- the model's answer for one row -/
+/-- the model's answer for one row (the model never raises: a `typeError` / `indexError` row cannot be matched) -/
 def fromSuitesOutcome (par : Bool) (times : List (Option Nat × Option Nat)) : FsOutcome :=
-  match statsFromSuites par [.mk (mdOf 0) (some 0) none none none (testsOf 0 times) []] with
-  | .ok st => .ok st.total st.passed
-  | .error .noResults => .indexError
-  | .error _ => .typeError
+  let ss : List SuiteResult := [.mk (mdOf 0) (some 0) none none none (testsOf 0 times) []]
+  .ok (statsFromSuites ss).total (statsFromSuites ss).passed (fromSuitesDurationKnown par ss)
 
 theorem fromSuitesTable_agrees : ∀ r ∈ fromSuitesTable, fromSuitesOutcome r.1.1 r.1.2 = r.2 := by decide +kernel
 
-/-- the extraction covered both the guarded and the raising side -/
+/-- the extraction covered: an in-progress LAST result of a sequential report (counted, duration unknown — the D34
+    situation), an in-progress middle result (duration known), the empty forest, a parallelized report -/
 theorem fromSuitesTable_covers :
-    (fromSuitesTable.any (fun r => r.2 == .typeError)) = true ∧ (fromSuitesTable.any (fun r => r.2 == .indexError)) = true ∧
-    (fromSuitesTable.any (fun r => r.2 == .ok 3 2)) = true := by decide +kernel
+    ((false, [(some 1, some 2), (some 3, some 4), (some 5, none)]), FsOutcome.ok 3 2 false) ∈ fromSuitesTable ∧
+    ((false, [(some 1, some 2), (some 3, none), (some 5, some 6)]), FsOutcome.ok 3 2 true) ∈ fromSuitesTable ∧
+    ((false, []), FsOutcome.ok 0 0 false) ∈ fromSuitesTable ∧
+    ((true, [(some 1, some 2)]), FsOutcome.ok 1 1 false) ∈ fromSuitesTable := by decide +kernel
 
 end LccModel.Generated.C20
